@@ -125,20 +125,27 @@ structure Query where
   range : Option (List Path × Nat × Option Nat) := none -- fc.range=sel!start-[end]
 deriving Repr, Inhabited
 
+/-- depth (MaxDepth.checkPathLen): the parent's distance from the base must stay below the limit -/
+def depthOK (q : Query) (rel : Path) : Bool :=
+  match q.depth with | none => true | some n => decide (rel.length ≤ n)
+/-- fields (FieldsMatcher, not reversed): named, below a named node, or on the way to one -/
+def fieldsOK (q : Query) (rel : Path) : Bool :=
+  match q.fields with | none => true | some ps => pathMatches ps rel || pathLeadsTo ps rel
+/-- fc.xfields (FieldsMatcher, reversed) -/
+def xfieldsOK (q : Query) (rel : Path) : Bool :=
+  match q.xfields with | none => true | some ps => !pathMatches ps rel
+/-- content (ContentConstraint): containers pass under nonconfig, they may hold operational leaves -/
+def contentOK (q : Query) (isLeaf : Bool) (config : Bool) : Bool :=
+  match q.content with
+  | .all => true
+  | .config => config
+  | .nonconfig => if isLeaf then !config else true
+
 /-- the checks a container / list / field request runs, one per parameter, in the order
-    node/constraints.go sorts them (priority, then weight); `true` = proceed -/
+    node/constraints.go sorts them (priority, then weight): depth (10,50), fields (10,50),
+    fc.xfields (10,50), content (10,70); `true` = proceed -/
 def preChecks (q : Query) (isLeaf : Bool) (config : Bool) (rel : Path) : List Bool :=
-  [ -- depth (10,50): the parent's distance from the base must stay below the limit
-    (match q.depth with | none => true | some n => decide (rel.length ≤ n)),
-    -- fields (10,50)
-    (match q.fields with | none => true | some ps => pathMatches ps rel || pathLeadsTo ps rel),
-    -- fc.xfields (10,50)
-    (match q.xfields with | none => true | some ps => !pathMatches ps rel),
-    -- content (10,70)
-    (match q.content with
-      | .all => true
-      | .config => config
-      | .nonconfig => if isLeaf then !config else true) ]
+  [depthOK q rel, fieldsOK q rel, xfieldsOK q rel, contentOK q isLeaf config]
 
 /-- first veto wins -/
 def firstVeto : List Bool → Bool
